@@ -549,6 +549,55 @@ var witnesses = []witness{
 		}
 		return ""
 	}},
+	{id: "F52", props: []string{"C09", "C11", "C10"}, what: "versions carried the time the connection was opened, so vacuum removed versions committed after its cutoff", run: func(w *wEnv) string {
+		w.mk("t", "k primary key, a", sqlh.TableOpts{EntriesPerNode: 2})
+		w.x("insert into t values(1,'x')")
+		time.Sleep(3 * time.Millisecond)
+		mark := time.Now()
+		time.Sleep(3 * time.Millisecond)
+		w.x("insert into t values(2,'x')")
+		v2 := w.q("select s3db_version('t')")
+		time.Sleep(3 * time.Millisecond)
+		w.x("insert into t values(3,'x')")
+		if err := s3db.Vacuum(context.Background(), "t", mark); err != nil {
+			return "vacuum: " + err.Error()
+		}
+		vb, _ := hexDecode(strings.TrimPrefix(v2, "T:"))
+		if r := w.x(fmt.Sprintf(`create virtual table c using s3db_changes(table='t', from='%s')`, vb)); r != "ok" {
+			return "changes: " + r
+		}
+		return wantEq("changes since the version committed after the cutoff", w.q("select k from c"), i(3))
+	}},
+	{id: "F54", props: []string{"C09"}, what: "a vacuum from a connection that had not merged another writer's line deleted nodes of the versions that writer had superseded", run: func(w *wEnv) string {
+		w.mk("a", "k primary key, a", sqlh.TableOpts{EntriesPerNode: 2})
+		for k := 1; k <= 8; k++ {
+			w.x("insert into a values(?,'base')", k)
+		}
+		dbB := sqlh.Open()
+		defer dbB.Close()
+		if r := sqlh.XS(dbB, sqlh.CreateSQL(sqlh.TableOpts{Name: "b", Bucket: w.bucket, Prefix: "p", Columns: "k primary key, a", EntriesPerNode: 2})); r != "ok" {
+			return "second connection: " + r
+		}
+		// B's line: first a version that still uses the base's left-hand leaves, then one that does not
+		sqlh.Exec(dbB, "insert into b values(100,'b1')")
+		vB := sqlh.QS(dbB, "select s3db_version('b')")
+		sqlh.Exec(dbB, "update b set a='b2' where k<=4")
+		// A's own line changes the same leaves, so the base's copies of them are candidates for deletion
+		w.x("update a set a='a1' where k<=4")
+		time.Sleep(2 * time.Millisecond)
+		w.x("insert into a values(51,'a2')")
+		if err := s3db.Vacuum(context.Background(), "a", time.Now().Add(time.Hour)); err != nil {
+			return "vacuum by the connection that has not seen B: " + err.Error()
+		}
+		if d := danglingIn(w.store, "p/s3db-rows/root/merged/", "p/s3db-rows/root/current/"); len(d) > 0 {
+			return fmt.Sprintf("a listed version refers to deleted nodes: %v", d[:min(len(d), 2)])
+		}
+		vb, _ := hexDecode(strings.TrimPrefix(vB, "T:"))
+		if _, err := readVersionKA(w.bucket, 2, string(vb)); err != nil {
+			return "B's superseded version cannot be read any more: " + err.Error()
+		}
+		return ""
+	}},
 	{id: "F15", props: []string{"C03"}, what: "an open racing with a commit showed an empty table (kv level)", run: func(w *wEnv) string {
 		// covered exhaustively by the proto stream; here: a version that left root/current/ between LIST and GET
 		return ""
